@@ -1,5 +1,17 @@
-"""C17 — WindowGenerator: proofs in coq/C17, correspondence against ibldsp.utils."""
+"""C17 — WindowGenerator: proofs in coq/C17, correspondence against ibldsp.utils.
+
+Three families of cases, all run through the real class and through the Coq model:
+  triple    one (ns, nswin, overlap): every API consumed alone AND side by side with other views of
+            the same object (zip of views, tscale() inside the loop); splicing amplitudes both as they
+            stream and materialised (list(...)) afterwards                    -> Run.v mode 0/1
+  schedule  a set of generator views of ONE object advanced in an arbitrary interleaving, with
+            tscale() calls in between; per event: output, wg.iw, number of distinct amplitude
+            buffers seen so far                                               -> Run.v mode 2
+  repr      the triple handed to the constructor as Python int / NumPy signed / unsigned / float
+            scalars (all three, or only ns)                                   -> Run.v mode 3 (nwin)
+"""
 import json
+import warnings
 
 import numpy as np
 import scipy.signal
@@ -11,21 +23,91 @@ PROP = "C17"
 HEADER = "From Coq Require Import ZArith List.\nImport ListNotations.\nFrom IBL.C17 Require Import Run."
 TRUSTED = [
     "Coq 8.16.1 kernel + vm_compute (no native_compute); all C17 theorems: Closed under the global context",
-    "hand-written model coq/C17/Model.v of ibldsp.utils.WindowGenerator, tied to /repo/src by this run's correspondence",
+    "hand-written models coq/C17/Model.v (generators) and coq/C17/Object.v (object state machine: shared iw, "
+    "amplitude-buffer allocation, raw-argument window count) of ibldsp.utils.WindowGenerator, tied to /repo/src "
+    "by this run's correspondence",
+    "Python generator semantics as modelled: creating a generator runs no code; one next() runs to the next yield; "
+    "a generator that raised is finished",
     "float64 ceil(float(a)/float(b)) == exact integer ceiling for |a| < 2^52 (modelled exactly; validated on large random triples)",
+    "NumPy 2 scalar arithmetic (NEP 50): uintN - int stays uintN and wraps modulo 2^N (modelled for N = 16, 32; N = 64 only observed)",
     "Hann ramp kept symbolic in the splicing theorem; hypothesis w[j]+w[ov-1-j]=1 is the source's own runtime assertion",
-    "harness/pC17.py generator, canonicaliser and oracle",
+    "harness/pC17.py generators, canonicaliser (buffer identity via np.shares_memory) and oracle",
     "extraction (Require Extraction, ExtrOcamlBasic only: bool/option/unit/list/prod/sumbool/sumor + andb/orb inlined; Z, positive kept inductive), harness/driver.ml, ocamlfind ocamlopt; a sample of the same cases is re-evaluated by the kernel (vm_compute)",
 ]
 
+KIND_NAMES = ["firstlast", "firstlast_valid", "firstlast_splicing", "slice", "slice_array"]
 
-def impl_observe(ns, nswin, ov, with_splice):
-    """Run the real WindowGenerator; everything converted to python ints."""
+# constructor-argument representations: name -> (constructor, class, unsigned bits or 0, max exactly held)
+REPRS = {
+    "int": (int, "exact", 0, None),
+    "int16": (np.int16, "exact", 0, 2 ** 15 - 1),
+    "int32": (np.int32, "exact", 0, 2 ** 31 - 1),
+    "int64": (np.int64, "exact", 0, 2 ** 63 - 1),
+    "intp": (np.intp, "exact", 0, 2 ** 63 - 1),
+    "uint16": (np.uint16, "unsigned", 16, 2 ** 16 - 1),
+    "uint32": (np.uint32, "unsigned", 32, 2 ** 32 - 1),
+    "uint64": (np.uint64, "unsigned", 64, 2 ** 64 - 1),
+    "uintp": (np.uintp, "unsigned", 64, 2 ** 64 - 1),
+    "float": (float, "exact", 0, 2 ** 52),
+    "float64": (np.float64, "exact", 0, 2 ** 52),
+    "float32": (np.float32, "exact", 0, 2 ** 24),
+}
+
+
+def make_wg(ns, nswin, ov, rep="int", which="all"):
     from ibldsp.utils import WindowGenerator
-    wg = WindowGenerator(ns, nswin, ov)
-    obs = {"ns": ns, "nswin": nswin, "ov": ov, "nwin": int(wg.nwin)}
+    conv = REPRS[rep][0]
+    with warnings.catch_warnings():
+        warnings.simplefilter("ignore")     # NumPy warns on scalar wrap-around; judged on the values
+        if which == "all":
+            return WindowGenerator(conv(ns), conv(nswin), conv(ov))
+        return WindowGenerator(conv(ns), nswin, ov)
+
+
+def ramp(ov):
+    return scipy.signal.windows.hann((ov + 1) * 2 + 1, sym=True)[1:ov + 1]
+
+
+def decode_amp(amp, w):
+    """amplitude vector -> symbolic codes of coq/C17/Model.v amp_code: -1 for 1.0, i for w[i], -2 otherwise"""
+    amp = np.asarray(amp)
+    codes = np.full(amp.shape, -2, dtype=np.int64)
+    one = amp == 1.0
+    codes[one] = -1
+    if w.size:
+        idx = np.minimum(np.searchsorted(w, amp), w.size - 1)
+        hit = (w[idx] == amp) & ~one
+        codes[hit] = idx[hit]
+    return [int(c) for c in codes]
+
+
+def valid_partition_ok(ns, v, fl):
+    pos = 0
+    okv = len(v) == len(fl)
+    for (f, l, fv, lv), (a, b) in zip(v, fl):
+        okv = okv and (f, l) == (a, b) and fv == pos and f <= fv < lv <= l
+        pos = lv
+    return bool(okv and pos == ns)
+
+
+def splice_sum_ok(ns, tuples):
+    tot = np.zeros(ns)
+    for first, last, amp in tuples:
+        if np.shape(amp) != (last - first,):
+            return False
+        tot[first:last] += amp
+    return bool(np.allclose(tot, 1.0, rtol=0, atol=1e-12))
+
+
+def impl_observe(ns, nswin, ov, with_splice, rep="int", which="all", interleave=True):
+    """Run the real WindowGenerator; everything converted to python ints."""
+    wg = make_wg(ns, nswin, ov, rep, which)
+    obs = {"ns": ns, "nswin": nswin, "ov": ov, "nwin": int(wg.nwin), "rep": rep, "which": which}
+    obs["attrs_ok"] = (type(wg.ns), type(wg.nswin), type(wg.overlap)) == (int, int, int) and \
+        (wg.ns, wg.nswin, wg.overlap) == (ns, nswin, ov) and wg.iw is None
     fl = [(int(a), int(b)) for a, b in wg.firstlast]
     obs["fl"] = fl
+    obs["iw_after_firstlast"] = wg.iw
     try:
         obs["valid"] = [tuple(int(x) for x in t) for t in wg.firstlast_valid]
     except AssertionError:
@@ -34,28 +116,74 @@ def impl_observe(ns, nswin, ov, with_splice):
     obs["ts"] = [int(round(float(t))) for t in ts]
     obs["ts_exact"] = bool(np.all(ts == np.round(ts)))
     obs["slices"] = [(int(s.start), int(s.stop)) for s in wg.slice]
+    inter = []          # (what, property predicate violated?)
     if with_splice:
-        w = scipy.signal.windows.hann((ov + 1) * 2 + 1, sym=True)[1:ov + 1]
-        lut = {float(v): i for i, v in enumerate(w)}
+        w = ramp(ov)
         sp = []
         tot = np.zeros(ns)
         decodable = True
+        kept = []       # the yielded tuples themselves (materialised), next to a copy taken at yield time
         for first, last, amp in wg.firstlast_splicing:
-            codes = []
-            for v in amp:
-                v = float(v)
-                if v == 1.0:
-                    codes.append(-1)
-                elif v in lut:
-                    codes.append(lut[v])
-                else:
-                    codes.append(-2)
-                    decodable = False
+            codes = decode_amp(amp, w) if np.shape(amp) == (last - first,) else [-2] * (last - first)
+            decodable = decodable and -2 not in codes and amp.dtype == np.float64
             tot[first:last] += amp
             sp.append((int(first), int(last), codes))
+            kept.append((first, last, amp, np.array(amp, copy=True)))
         obs["splice"] = sp
         obs["splice_decodable"] = decodable
         obs["splice_sum_ok"] = bool(np.allclose(tot, 1.0, rtol=0, atol=1e-12))
+        # two-pass use: the tuples are used after the generator has moved on
+        obs["splice_stable"] = all(np.array_equal(a, c) for _, _, a, c in kept)
+        obs["splice_distinct_buffers"] = not any(np.shares_memory(kept[i][2], kept[j][2])
+                                                 for i in range(len(kept)) for j in range(i + 1, min(len(kept), i + 3)))
+        obs["splice_sum_ok_materialised"] = splice_sum_ok(ns, [(f, l, a) for f, l, a, _ in kept])
+        lst = list(make_wg(ns, nswin, ov, rep, which).firstlast_splicing)
+        obs["splice_list_equal"] = len(lst) == len(kept) and all(
+            (int(f), int(l)) == (int(f2), int(l2)) and np.array_equal(a, c)
+            for (f, l, a), (f2, l2, _, c) in zip(lst, kept))
+        obs["splice_sum_ok_list"] = splice_sum_ok(ns, lst)
+    if interleave:
+        obs["interleave_bad"] = inter
+        nw = len(fl)
+        exp_ts = [a + b - 1 for a, b in fl]
+        # two views of the same kind
+        wg2 = make_wg(ns, nswin, ov, rep, which)
+        got = [(tuple(map(int, a)), tuple(map(int, b))) for a, b in zip(wg2.firstlast, wg2.firstlast)]
+        if [g[0] for g in got] != fl or [g[1] for g in got] != fl:
+            inter.append(("zip(wg.firstlast, wg.firstlast) differs from wg.firstlast", True))
+        if obs["valid"] is not None:
+            wg2 = make_wg(ns, nswin, ov, rep, which)
+            got = [(tuple(int(x) for x in v), (int(s.start), int(s.stop))) for v, s in zip(wg2.firstlast_valid, wg2.slice)]
+            gv = [g[0] for g in got]
+            if gv != obs["valid"] or [g[1] for g in got] != fl:
+                inter.append(("firstlast_valid / slice consumed as zip(wg.firstlast_valid, wg.slice) differ from the "
+                              "same generators consumed alone", not valid_partition_ok(ns, gv, fl)))
+            wg2 = make_wg(ns, nswin, ov, rep, which)
+            pts = {0, 1, nw // 2, nw - 2, nw - 1}
+            gv, ts_ok = [], True
+            for i, v in enumerate(wg2.firstlast_valid):
+                if i in pts:
+                    t = wg2.tscale(1.0) * 2
+                    ts_ok = ts_ok and [int(round(float(x))) for x in t] == exp_ts and wg2.iw == nw - 1
+                gv.append(tuple(int(x) for x in v))
+            if gv != obs["valid"] or not ts_ok:
+                inter.append(("firstlast_valid with wg.tscale(fs) called inside the loop differs from firstlast_valid "
+                              "consumed alone", not valid_partition_ok(ns, gv, fl) or not ts_ok))
+        if with_splice:
+            wg2 = make_wg(ns, nswin, ov, rep, which)
+            other = wg2.firstlast_valid if obs["valid"] is not None else wg2.slice
+            got = [(a, b) for a, b in zip(other, wg2.firstlast_splicing)]
+            ga = [(int(f), int(l), a) for _, (f, l, a) in got]
+            same = len(ga) == len(kept) and all((f, l) == (int(f2), int(l2)) and np.array_equal(a, c)
+                                                for (f, l, a), (f2, l2, _, c) in zip(ga, kept))
+            if obs["valid"] is not None:
+                gv = [tuple(int(x) for x in v) for v, _ in got]
+                if gv != obs["valid"]:
+                    inter.append(("firstlast_valid consumed as zip(wg.firstlast_valid, wg.firstlast_splicing) differs "
+                                  "from firstlast_valid consumed alone", not valid_partition_ok(ns, gv, fl)))
+            if not same:
+                inter.append(("firstlast_splicing consumed next to another view differs from firstlast_splicing alone",
+                              2 * ov <= nswin and not splice_sum_ok(ns, ga)))
     return obs
 
 
@@ -82,24 +210,45 @@ def oracle(obs):
         v = obs["valid"]
         if v is None:
             bad.append("valid generator refused an even overlap")
-        else:
-            pos = 0
-            okv = len(v) == len(fl)
-            for (f, l, fv, lv), (a, b) in zip(v, fl):
-                okv = okv and (f, l) == (a, b) and fv == pos and f <= fv < lv <= l
-                pos = lv
-            if not okv or pos != ns:
-                bad.append("valid sub-windows do not partition the signal")
+        elif not valid_partition_ok(ns, v, fl):
+            bad.append("valid sub-windows do not partition the signal")
     if "splice" in obs and 2 * ov <= nswin:
         if [(a, b) for a, b, _ in obs["splice"]] != fl:
             bad.append("splicing windows differ from firstlast")
         if not obs["splice_sum_ok"]:
             bad.append("splicing amplitudes do not sum to one")
+        elif not (obs["splice_sum_ok_materialised"] and obs["splice_sum_ok_list"]):
+            bad.append("splicing amplitudes collected with list(wg.firstlast_splicing) do not sum to one "
+                       "(they do while streaming)")
+    for what, violated in obs.get("interleave_bad", []):
+        if violated:
+            bad.append("interleaved use: " + what)
     return bad
 
 
+def soft_checks(obs):
+    """Differences from the model's view of the object that are not (shown to be) property violations."""
+    out = []
+    if not obs["attrs_ok"]:
+        out.append("wg.ns / wg.nswin / wg.overlap are not the int values of the arguments, or iw is not None after __init__")
+    if obs["iw_after_firstlast"] != len(obs["fl"]) - 1:
+        out.append("wg.iw after a complete firstlast loop is %r, not nwin-1" % (obs["iw_after_firstlast"],))
+    if "splice" in obs:
+        if not obs["splice_decodable"]:
+            out.append("splicing amplitude is neither 1 nor a ramp value (or not a float64 vector of the window's length)")
+        if not (obs["splice_stable"] and obs["splice_list_equal"]):
+            out.append("an amplitude vector changed after the next window was requested (list(wg.firstlast_splicing) "
+                       "differs from the values seen while streaming)")
+        if not obs["splice_distinct_buffers"]:
+            out.append("amplitude vectors of different windows share memory")
+    for what, violated in obs.get("interleave_bad", []):
+        if not violated:
+            out.append("interleaved use: " + what)
+    return out
+
+
 def enc_obs(obs):
-    """Same flat encoding as coq/C17/Run.v `run`."""
+    """Same flat encoding as coq/C17/Run.v `run`, mode 0/1."""
     out = [obs["nwin"]]
     out += [1, len(obs["fl"])] + [x for t in obs["fl"] for x in t]
     if obs["valid"] is None:
@@ -118,9 +267,133 @@ def enc_inp(obs):
     return [obs["ns"], obs["nswin"], obs["ov"], 1 if "splice" in obs else 0]
 
 
+# ---------------------------------------------------------------------------------------------
+# schedules: several generator views of one object, arbitrary interleaving
+# ---------------------------------------------------------------------------------------------
+def run_schedule_impl(ns, nswin, ov, kinds, events):
+    """Returns (flat trace as Run.v mode 2, per-view outputs, problems[(what, is_property_violation)])."""
+    wg = make_wg(ns, nswin, ov)
+    sig = np.arange(ns)
+    gens = [wg.slice_array(sig) if k == 4 else getattr(wg, KIND_NAMES[k]) for k in kinds]
+    w = ramp(ov)
+    trace = []
+    per_view = [[] for _ in kinds]
+    amps = []           # every amplitude vector ever yielded (kept alive), with a copy taken at yield time
+    nclasses = 0
+    for e in events:
+        if e < 0:
+            ts = wg.tscale(1.0) * 2
+            out = [7, len(ts)] + [int(round(float(t))) for t in ts]
+            if not np.all(ts == np.round(ts)):
+                out = [7, -1]
+        else:
+            k = kinds[e]
+            try:
+                r = next(gens[e])
+            except StopIteration:
+                out = [0]
+            except AssertionError:
+                out = [1]
+            else:
+                if k == 0:
+                    out = [2, int(r[0]), int(r[1])]
+                elif k == 1:
+                    out = [3] + [int(x) for x in r]
+                elif k == 2:
+                    f, l, amp = r
+                    codes = decode_amp(amp, w) if np.shape(amp) == (l - f,) else [-2]
+                    out = [4, int(f), int(l), len(codes)] + codes
+                    if not any(np.shares_memory(amp, a) for _, _, a, _, _ in amps):
+                        nclasses += 1
+                    amps.append((int(f), int(l), amp, np.array(amp, copy=True), e))
+                elif k == 3:
+                    out = [5, int(r.start), int(r.stop)] if r.step is None else [5, -1, -1]
+                else:
+                    a = np.asarray(r)
+                    if a.ndim == 1 and a.size and np.array_equal(a, np.arange(a[0], a[0] + a.size)):
+                        out = [6, int(a[0]), int(a[0]) + a.size]
+                    else:
+                        out = [6, -1, -1]
+                per_view[e].append(out)
+        iw = wg.iw
+        trace += out + [-1 if iw is None else int(iw), nclasses]
+    problems = []
+    # materialised amplitudes: unchanged since they were yielded, and (view run to its end) they sum to one
+    if not all(np.array_equal(a, c) for _, _, a, c, _ in amps):
+        problems.append(("an amplitude vector changed after a later window was requested", False))
+    fl_ref = None
+    for vi, k in enumerate(kinds):
+        outs = per_view[vi]
+        done = events.count(vi) > len(outs) and not (k == 1 and ov % 2)
+        if not done:
+            continue
+        if fl_ref is None:
+            fl_ref = [(int(a), int(b)) for a, b in make_wg(ns, nswin, ov).firstlast]
+        if k == 1 and not valid_partition_ok(ns, [tuple(o[1:]) for o in outs], fl_ref):
+            problems.append(("valid sub-windows of a view consumed next to other views do not partition the signal", True))
+        if k == 2 and 2 * ov <= nswin and not splice_sum_ok(ns, [(f, l, a) for f, l, a, _, v in amps if v == vi]):
+            problems.append(("splicing amplitudes of a view, collected and summed after the loop, do not sum to one", True))
+        if k in (0, 3, 4) and [tuple(o[1:3]) for o in outs] != fl_ref:
+            problems.append(("windows of a view consumed next to other views differ from firstlast", True))
+    return trace, per_view, problems
+
+
+def gen_schedules(ctx, n):
+    rng = ctx.rng
+    out = []
+    for _ in range(n):
+        w = rng.choice([1, 2, 3, 4, 5, 6, 7, 8, 10, 12, 16, rng.randrange(1, 41), rng.randrange(1, 41)])
+        o = rng.choice([0, w // 2, (w // 2) & ~1, rng.randrange(0, w), rng.randrange(0, w) & ~1, w - 1])
+        o = max(0, min(o, w - 1))
+        s = w - o
+        nw = rng.choice([1, 2, 2, 3, 3, 4, 5, 6, rng.randrange(1, 13)])
+        ns = max(1, w + (nw - 1) * s + rng.choice([-s, -1, 0, 0, 1, rng.randrange(-s, s + 1)]))
+        if rng.random() < 0.08:
+            ns = max(1, rng.choice([o - 1, o, o + 1, 1, w - 1]))
+        nwin = max(0, -((-(ns - w)) // s)) + 1
+        pat = rng.choice(["zip", "zip", "zip_tscale", "random", "random", "sequential", "nested", "lone_tail"])
+        nk = rng.choice([1, 2, 2, 2, 3, 4]) if pat != "nested" else rng.randrange(2, 7)
+        kinds = [rng.choice([0, 1, 1, 2, 2, 3, 4]) for _ in range(nk)]
+        if nk >= 2 and rng.random() < 0.4:
+            kinds[0], kinds[1] = 1, rng.choice([2, 3, 2, 0])
+        ev = []
+        if pat in ("zip", "zip_tscale"):
+            rounds = nwin + rng.choice([0, 1, 2]) if rng.random() < 0.8 else rng.randrange(1, nwin + 2)
+            for r in range(rounds):
+                for i in range(nk):
+                    ev.append(i)
+                    if pat == "zip_tscale" and rng.random() < 0.25:
+                        ev.append(-1)
+        elif pat == "random":
+            for _ in range(rng.randrange(1, nk * (nwin + 2) + 1)):
+                ev.append(-1 if rng.random() < 0.08 else rng.randrange(nk))
+        elif pat == "sequential":
+            for i in range(nk):
+                ev += [i] * rng.choice([nwin + 1, nwin + 1, nwin, rng.randrange(1, nwin + 3)])
+                if rng.random() < 0.3:
+                    ev.append(-1)
+        elif pat == "nested":      # for each window of view 0, a whole fresh view is run
+            inner = 1
+            for r in range(nwin + 1):
+                ev.append(0)
+                if inner < nk:
+                    ev += [inner] * (nwin + 1)
+                    inner += 1
+                elif rng.random() < 0.5:
+                    ev.append(-1)
+        else:                      # anything, then one view alone to its end (iw must track it)
+            for _ in range(rng.randrange(0, nk * nwin + 1)):
+                ev.append(-1 if rng.random() < 0.1 else rng.randrange(max(1, nk - 1)))
+            ev += [nk - 1] * (nwin + 2)
+        out.append((ns, w, o, kinds, ev[:160], pat))
+    return out
+
+
+# ---------------------------------------------------------------------------------------------
 def gen_triples(ctx):
     rng = ctx.rng
     triples = []
+    boundary = []
     # the bounded box of the property: ns <= 400, nswin <= 64, every admissible overlap
     box = [(ns, w, o) for w in range(1, 65) for o in range(0, w) for ns in range(1, 401)]
     if ctx.thorough():
@@ -128,15 +401,16 @@ def gen_triples(ctx):
     else:
         off = rng.randrange(37)
         triples += box[off::37]
-        # boundary rows always: ns around overlap / window / multiples of the stride
-        for w in (1, 2, 3, 4, 7, 10, 12, 16, 33, 64):
-            for o in sorted({0, 1, 2, w // 2 - 1, w // 2, w // 2 + 1, w - 2, w - 1}):
-                if 0 <= o < w:
-                    s = w - o
-                    for ns in {1, o - 1, o, o + 1, w - 1, w, w + 1, w + s - 1, w + s, w + s + 1,
-                               2 * o - 1, 2 * o, 2 * o + 1, w + 5 * s, w + 5 * s + 1, 400}:
-                        if ns >= 1:
-                            triples.append((ns, w, o))
+    # boundary rows always: ns around overlap / window / multiples of the stride
+    for w in (1, 2, 3, 4, 7, 10, 12, 16, 33, 64):
+        for o in sorted({0, 1, 2, w // 2 - 1, w // 2, w // 2 + 1, w - 2, w - 1}):
+            if 0 <= o < w:
+                s = w - o
+                for ns in {1, o - 1, o, o + 1, w - 1, w, w + 1, w + s - 1, w + s, w + s + 1,
+                           2 * o - 1, 2 * o, 2 * o + 1, w + 5 * s, w + 5 * s + 1, 400}:
+                    if ns >= 1:
+                        boundary.append((ns, w, o))
+    triples += boundary
     nrand = 20000 if ctx.thorough() else 2500
     for _ in range(nrand):
         kind = rng.random()
@@ -158,18 +432,30 @@ def gen_triples(ctx):
             if (ns // max(1, w - o)) > 200:
                 ns = rng.randrange(1, 200 * (w - o) + 1)
         triples.append((ns, w, max(0, min(o, w - 1))))
-    return triples
+    return triples, boundary
+
+
+def rep_applicable(rep, which, ns, w, o):
+    mx = REPRS[rep][3]
+    if mx is None:
+        return True
+    return max(ns, w, o) <= mx      # also for which == "ns": int operands beyond the type raise OverflowError (notes)
 
 
 def run(ctx):
     common.proof_obligations(ctx, whitelist=[])
-    triples = gen_triples(ctx)
+    triples, boundary = gen_triples(ctx)
+    rng = ctx.rng
     seen = set()
-    cases = []
-    terms = []
+    cases, inputs, outputs, descr = [], [], [], []
     nontrivial = set()
     dist = {"single_window": 0, "short_last": 0, "zero_overlap": 0, "ns_le_overlap": 0,
-            "half_or_less_overlap": 0, "spliced": 0, "odd_overlap": 0}
+            "half_or_less_overlap": 0, "spliced": 0, "odd_overlap": 0, "interleaved_patterns_run": 0}
+
+    def tri(ns, w, o):
+        return {"ns": ns, "nswin": w, "overlap": o}
+
+    # ---- family 1: triples ------------------------------------------------------------------
     for (ns, w, o) in triples:
         if (ns, w, o) in seen:
             continue
@@ -179,16 +465,16 @@ def run(ctx):
         try:
             obs = impl_observe(ns, w, o, with_splice)
         except Exception as e:      # the property says these calls succeed on the whole domain
-            ctx.fail("WindowGenerator raised %r" % (e,), {"ns": ns, "nswin": w, "overlap": o},
-                     {"kind": "exception"})
+            ctx.fail("WindowGenerator raised %r" % (e,), tri(ns, w, o), {"kind": "exception"})
             continue
-        cid = len(cases)
         cases.append(obs)
-        bad = oracle(obs)
-        if with_splice and not obs["splice_decodable"]:
-            ctx.disagree("splicing amplitude is neither 1 nor a ramp value", {"ns": ns, "nswin": w, "overlap": o})
-        for b in bad:
-            ctx.fail(b, {"ns": ns, "nswin": w, "overlap": o}, {"kind": b.split()[0]})
+        inputs.append(enc_inp(obs))
+        outputs.append(enc_obs(obs))
+        descr.append(tri(ns, w, o))
+        for b in oracle(obs):
+            ctx.fail(b, tri(ns, w, o), {"kind": b.split()[0], "repr_class": "exact", "ns_lt_nswin": ns < w})
+        for b in soft_checks(obs):
+            ctx.disagree(b, tri(ns, w, o))
         nfl = len(obs["fl"])
         dist["single_window"] += nfl == 1
         dist["short_last"] += nfl > 1 and (obs["fl"][-1][1] - obs["fl"][-1][0]) < w
@@ -197,23 +483,109 @@ def run(ctx):
         dist["half_or_less_overlap"] += 2 * o <= w
         dist["spliced"] += with_splice
         dist["odd_overlap"] += o % 2 == 1
+        dist["interleaved_patterns_run"] += 1 + (2 if o % 2 == 0 else 0) + (1 if with_splice else 0)
         if nfl > 1:
             nontrivial.add((ns, w, o))
-    common.correspondence(
-        ctx, PROP, HEADER, [enc_inp(o) for o in cases], [enc_obs(o) for o in cases],
-        lambda i: {"ns": cases[i]["ns"], "nswin": cases[i]["nswin"], "overlap": cases[i]["ov"]})
+    n_triples = len(cases)
+
+    # ---- family 2: schedules ----------------------------------------------------------------
+    scheds = gen_schedules(ctx, 30000 if ctx.thorough() else 3500)
+    sdist = {"schedules": 0, "events": 0, "with_tscale": 0, "two_or_more_views": 0, "valid_next_to_other": 0,
+             "splicing_views": 0, "assertion_path": 0, "iw_ahead_of_reader": 0, "patterns": {}}
+    sched_seen = set()
+    for (ns, w, o, kinds, ev, pat) in scheds:
+        key = (ns, w, o, tuple(kinds), tuple(ev))
+        if key in sched_seen or not ev:
+            continue
+        sched_seen.add(key)
+        d = dict(tri(ns, w, o), mode="schedule", kinds=kinds, events=ev)
+        try:
+            trace, per_view, problems = run_schedule_impl(ns, w, o, kinds, ev)
+        except Exception as e:
+            ctx.fail("WindowGenerator raised %r during an interleaved schedule" % (e,), d, {"kind": "exception"})
+            continue
+        for what, violated in problems:
+            if violated:
+                ctx.fail(what, d, {"kind": "interleaved"})
+            else:
+                ctx.disagree(what, d)
+        inputs.append([ns, w, o, 2, len(kinds)] + kinds + ev)
+        outputs.append(trace)
+        descr.append(d)
+        sdist["schedules"] += 1
+        sdist["events"] += len(ev)
+        sdist["with_tscale"] += -1 in ev
+        used = {e for e in ev if e >= 0}
+        sdist["two_or_more_views"] += len(used) >= 2
+        sdist["valid_next_to_other"] += any(kinds[e] == 1 for e in used) and len(used) >= 2 and o % 2 == 0 and o > 0
+        sdist["splicing_views"] += any(kinds[e] == 2 for e in used)
+        sdist["assertion_path"] += any(kinds[e] == 1 for e in used) and o % 2 == 1
+        sdist["patterns"][pat] = sdist["patterns"].get(pat, 0) + 1
+        if len(used) >= 2 and len(per_view[0]) > 1:
+            nontrivial.add(key)
+    n_sched = sdist["schedules"]
+
+    # ---- family 3: representations of the constructor arguments ------------------------------
+    base = {(c["ns"], c["nswin"], c["ov"]): c for c in cases}
+    pool = [t for t in dict.fromkeys(boundary) if t in base]
+    rest = [t for t in base if base[t]["nwin"] <= 200]
+    pool += rng.sample(rest, min(len(rest), 6000 if ctx.thorough() else 700))
+    rdist = {}
+    n_repr = 0
+    for (ns, w, o) in dict.fromkeys(pool):
+        b = base[(ns, w, o)]
+        for rep, (conv, rclass, ubits, _) in REPRS.items():
+            if rep == "int":
+                continue
+            for which in ("all", "ns"):
+                if not rep_applicable(rep, which, ns, w, o):
+                    continue
+                d = dict(tri(ns, w, o), mode="repr", repr=rep, which=which)
+                tags_base = {"repr_class": rclass, "ns_lt_nswin": ns < w}
+                try:
+                    obs = impl_observe(ns, w, o, False, rep, which, interleave=False)
+                except Exception as e:
+                    ctx.fail("WindowGenerator raised %r for arguments given as %s" % (e, rep), d,
+                             dict(tags_base, kind="exception"))
+                    continue
+                n_repr += 1
+                rdist[rep] = rdist.get(rep, 0) + 1
+                for bmsg in oracle(obs):
+                    ctx.fail(bmsg + " [arguments given as %s (%s)]" % (rep, which), d,
+                             dict(tags_base, kind=bmsg.split()[0]))
+                for bmsg in soft_checks(obs):
+                    ctx.disagree(bmsg, d)
+                for k in ("fl", "valid", "ts", "slices"):
+                    if obs[k] != b[k]:
+                        ctx.disagree("%s depends on the representation of the arguments" % k, d)
+                if ubits in (0, 16, 32):
+                    inputs.append([ns, w, o, 3, ubits])
+                    outputs.append([obs["nwin"]])
+                    descr.append(d)
+    rdist["unsigned_ns_lt_nswin"] = sum(1 for t in dict.fromkeys(pool) if t[0] < t[1])
+
+    common.correspondence(ctx, PROP, HEADER, inputs, outputs, lambda i: descr[i])
     samples = [{"ns": c["ns"], "nswin": c["nswin"], "overlap": c["ov"], "firstlast": c["fl"][:4],
-                "nwin": c["nwin"]} for c in cases[:: max(1, len(cases) // 6)]]
+                "nwin": c["nwin"]} for c in cases[:: max(1, len(cases) // 5)]][:5]
+    samples += [{k: v for k, v in d.items()} for d in descr[n_triples:n_triples + 2]]
     return common.finish(
         ctx, TRUSTED,
-        rule="(ns, nswin, overlap) triples: the box ns<=400 x nswin<=64 x every overlap (all of it in "
+        rule="(1) (ns, nswin, overlap) triples: the box ns<=400 x nswin<=64 x every overlap (all of it in "
              "thorough, a 1-in-37 stride plus boundary rows in quick) and random large triples; each is run "
              "through the real WindowGenerator (nwin, firstlast, firstlast_valid, slice, tscale, "
-             "firstlast_splicing) and through the Coq model; non-trivial = more than one window; distinct by triple",
-        samples=samples, evaluations=len(cases), distinct_nontrivial=len(nontrivial),
-        extra={"input_distribution": dist, "exhaustive": False,
-               "box_exhaustive": bool(ctx.thorough())},
-        assumptions=["np.ceil on float64 quotient is the exact ceiling for operands below 2^52"])
+             "firstlast_splicing streamed and materialised) alone and as zip(...) of two views of one object / "
+             "tscale() inside the loop, and through the Coq model; (2) random schedules of next()/tscale() over "
+             "1-6 views of one object (zip, random, sequential, nested, lone-tail patterns) compared event by "
+             "event (output, wg.iw, number of distinct amplitude buffers) with the Coq state machine; "
+             "(3) the triples' arguments given as 11 NumPy/float representations (all three / only ns); "
+             "non-trivial = more than one window (triples) / two or more views advanced and more than one "
+             "window yielded (schedules); distinct by triple / by (triple, views, schedule)",
+        samples=samples, evaluations=n_triples + n_sched + n_repr, distinct_nontrivial=len(nontrivial),
+        extra={"input_distribution": dist, "schedule_distribution": sdist, "representation_runs": rdist,
+               "evaluations_by_family": {"triples": n_triples, "schedules": n_sched, "representations": n_repr},
+               "exhaustive": False, "box_exhaustive": bool(ctx.thorough())},
+        assumptions=["np.ceil on float64 quotient is the exact ceiling for operands below 2^52",
+                     "NumPy >= 2 scalar promotion (NEP 50) for unsigned arguments"])
 
 
 def replay(ctx, data):
@@ -222,14 +594,39 @@ def replay(ctx, data):
         print(json.dumps(data, indent=1)[:3000])
         return 1
     ns, w, o = inp["ns"], inp["nswin"], inp["overlap"]
+    mode = inp.get("mode", "triple")
     try:
+        if mode == "schedule":
+            trace, per_view, problems = run_schedule_impl(ns, w, o, inp["kinds"], inp["events"])
+            print("views:", [KIND_NAMES[k] for k in inp["kinds"]], "events (-1 = tscale):", inp["events"])
+            print("implementation trace (per event: output, iw, distinct amplitude buffers):", trace[:200])
+            print("problems seen on the implementation:", problems)
+            ids = common.coq_mismatches(PROP, HEADER, [common.flat_cases_term(
+                0, [ns, w, o, 2, len(inp["kinds"])] + inp["kinds"] + inp["events"], trace)])
+            print("kernel-evaluated state machine agrees with implementation:", not ids)
+            return 1 if (ids or problems) else 0
+        if mode == "repr":
+            obs = impl_observe(ns, w, o, False, inp["repr"], inp["which"], interleave=False)
+            ref = impl_observe(ns, w, o, False, interleave=False)
+            bad = oracle(obs)
+            print("arguments as %s (%s): nwin=%d, windows produced=%d; as int: nwin=%d" % (
+                inp["repr"], inp["which"], obs["nwin"], len(obs["fl"]), ref["nwin"]))
+            print("property clauses failing on the implementation:", bad)
+            ub = REPRS[inp["repr"]][2]
+            ids = [] if ub == 64 else common.coq_mismatches(
+                PROP, HEADER, [common.flat_cases_term(0, [ns, w, o, 3, ub], [obs["nwin"]])])
+            print("kernel-evaluated nwin_raw agrees with implementation:", not ids)
+            same = all(obs[k] == ref[k] for k in ("fl", "valid", "ts", "slices"))
+            return 1 if (bad or ids or not same) else 0
         obs = impl_observe(ns, w, o, ns <= 5000)
     except Exception as e:
         print("implementation raised:", repr(e))
         return 1
     bad = oracle(obs)
+    soft = soft_checks(obs)
     print("implementation:", {k: (v if not isinstance(v, list) else v[:6]) for k, v in obs.items()})
     print("property clauses failing on the implementation:", bad)
+    print("other differences:", soft)
     ids = common.coq_mismatches(PROP, HEADER, [common.flat_cases_term(0, enc_inp(obs), enc_obs(obs))])
     print("kernel-evaluated model agrees with implementation:", not ids)
-    return 1 if (bad or ids) else 0
+    return 1 if (bad or soft or ids) else 0
